@@ -1,5 +1,6 @@
 from .. import common, mir
 from ..rules import c19
+from .. import witness
 
 
 def run(tier, replay=None):
@@ -9,6 +10,7 @@ def run(tier, replay=None):
     rep.configs = cfgs
     for cfg in cfgs:
         c19.run(rep, mir.load(cfg), cfg)
+    witness.run(rep, "C19-R3")
     return rep.finish(
         "proof",
         "R1: the acceptance predicate of the constructor (path predicate of its return, atoms normalised, ceil-division "
